@@ -736,9 +736,64 @@ def install_shims(modules):
         if hasattr(m, 'Pool'):
             m.Pool = SerialPool
         _SHIMMED.append(m)
+    snapshot_module_state()
+
+
+_MODULE_STATE = []      # (container object, pristine shallow copy) for every module-level dict / list / set of geomdl
+
+
+def snapshot_module_state():
+    """remember the module-level mutable containers of the shimmed geomdl modules as they are right after import"""
+    import copy
+    del _MODULE_STATE[:]
+    seen = set()
+    for m in _SHIMMED:
+        for k, v in list(vars(m).items()):
+            if k.startswith('__') or id(v) in seen:
+                continue
+            if isinstance(v, (dict, list, set)) and getattr(m, '__name__', '').startswith('geomdl'):
+                seen.add(id(v))
+                try:
+                    _MODULE_STATE.append((v, copy.copy(v)))
+                except Exception:
+                    pass
+
+
+def restore_module_state():
+    """every path starts from the process state of a fresh import (what the float replay sees): memos kept in
+    module-level containers must not carry values (symbolic ones!) from one explored path into the next"""
+    for obj, pristine in _MODULE_STATE:
+        try:
+            if isinstance(obj, dict):
+                if obj != pristine or len(obj) != len(pristine):
+                    obj.clear()
+                    obj.update(pristine)
+            elif isinstance(obj, list):
+                if len(obj) != len(pristine) or any(a is not b for a, b in zip(obj, pristine)):
+                    obj[:] = pristine
+            else:
+                if obj != pristine:
+                    obj.clear()
+                    obj.update(pristine)
+        except Exception:
+            pass
+    # containers created after the snapshot (module attributes that did not exist then) are emptied
+    known = set(id(o) for o, _ in _MODULE_STATE)
+    for m in _SHIMMED:
+        if not getattr(m, '__name__', '').startswith('geomdl'):
+            continue
+        for k, v in list(vars(m).items()):
+            if k.startswith('__') or id(v) in known:
+                continue
+            if isinstance(v, (dict, set)) and v:
+                try:
+                    v.clear()
+                except Exception:
+                    pass
 
 
 def clear_lru_caches():
+    restore_module_state()
     for m in _SHIMMED:
         for v in list(vars(m).values()):
             cc = getattr(v, 'cache_clear', None)
